@@ -1,6 +1,7 @@
 package mon
 
 import (
+	"encoding/json"
 	"fmt"
 	"math/big"
 	"sort"
@@ -369,6 +370,33 @@ func NewC09() *C09 {
 
 func (m *C09) OnCall(e *sim.Env, c *sim.Call) {
 	post := c.Post.View
+	if c.Kind == "init" && c.Entry.Init != nil && c.Panic == "" {
+		// tombstones stated by the genesis request itself (not what the application stored of them)
+		var gs map[string]json.RawMessage
+		if json.Unmarshal(c.Entry.Init.AppState, &gs) == nil {
+			var pg struct {
+				SigningInfos map[string]struct {
+					Tombstoned bool `json:"tombstoned"`
+				} `json:"signing_infos"`
+			}
+			if json.Unmarshal(gs["pos"], &pg) == nil {
+				for a, si := range pg.SigningInfos {
+					if si.Tombstoned {
+						m.tomb[lower(a)] = true
+						e.Count("c09.tombstones_from_genesis")
+					}
+				}
+			}
+		}
+		if post != nil {
+			for a := range m.tomb {
+				if s, ok := post.Sign[a]; !ok || !s.Tombstoned {
+					e.Violate("C09", "tombstone-cleared/genesis", fmt.Sprintf("the genesis state lists %s as tombstoned; after InitChain it is not", a), c)
+				}
+			}
+		}
+		return
+	}
 	if post == nil || c.Kind == "init" || c.Reopened {
 		return
 	}
